@@ -7,8 +7,53 @@
    not yet covered by a theorem are decided by the implementation <-> specification <->
    hardware differential run only (listed as unproved_forms in the evidence). *)
 From Coq Require Import ZArith Bool List.
-From AxV Require Import Bits Outcome Codes Iced State Rt Mem Trace Exec ExecP FrameTac FrameP ISA CodeSem IsaP.
-From AxG Require Import Flags Regs Operand Helpers Dispatch Frame.
+From AxV Require Import Bits Outcome Codes Iced State Rt Mem Trace Exec ExecP FrameTac FrameP RegFile RegsP ByteStore ISA CodeSem IsaP CfP StackP.
+From AxG Require Import Flags Regs Operand Helpers Dispatch Frame I_push I_pop.
 Local Open Scope Z_scope.
 
+(* The emulator's stack discipline, stated exactly.  [emu_push] stores at the OLD stack pointer and
+   then decrements; [emu_pop] loads at RSP + size and makes that the new stack pointer.  This is
+   the hardware operation (ISA.push_val / ISA.pop_val) conjugated by RSP + size - the known
+   finding KF-C04-stack-convention as a theorem: the guest sees a consistent stack, every cell
+   one slot above where a CPU would put it. *)
+Theorem C04_push_is_hardware_conjugated : forall n v s,
+  0 <= regs s RSP < 2 ^ 64 ->
+  emu_push n v s = option_map (shift (- Z.of_nat n)) (push_val n v (shift (Z.of_nat n) s)).
+Proof. exact emu_push_is_conjugate. Qed.
+
+Theorem C04_pop_is_hardware_conjugated : forall n s,
+  0 <= regs s RSP < 2 ^ 64 ->
+  emu_pop n s = option_map (fun '(v, s1) => (v, shift (- Z.of_nat n) s1)) (pop_val n (shift (Z.of_nat n) s)).
+Proof. exact emu_pop_is_conjugate. Qed.
+
+(* PUSH r64 (regenerated Gallina): the operand is read before the stack pointer moves - also
+   when the operand is RSP itself -, the 8 bytes go to [RSP], RSP decreases by 8 modulo 2^64;
+   if the store fails the step fails and nothing changes *)
+Theorem C04_push_r64 : forall c i s,
+  i_code i = C_Push_r64 -> is_gpr64 (i_op0_register i) = true -> wf_regs s -> Inv (mem s) ->
+  let v := regs s (i_op0_register i) in
+  (exists s', emu_push 8 v s = Some s' /\ instr_push_r64 c i s = (Ok tt, s')) \/
+  (emu_push 8 v s = None /\ exists e, instr_push_r64 c i s = (Err e, s)).
+Proof. exact push_r64_exact. Qed.
+
+(* POP r64: loads at RSP + 8, writes the destination, then RSP := RSP + 8 (last, also when the
+   destination is RSP); a failing load changes nothing *)
+Theorem C04_pop_r64 : forall c i s,
+  i_code i = C_Pop_r64 -> is_gpr64 (i_op0_register i) = true -> wf_regs s ->
+  let r := i_op0_register i in
+  match emu_pop 8 s with
+  | Some (v, s1) =>
+      instr_pop_r64 c i s = (Ok tt, set_regs s (upd (upd (regs s) r v) RSP ((regs s RSP + 8) mod 2 ^ 64)))
+  | None => exists e, instr_pop_r64 c i s = (e, s) /\ forall u, e <> Ok u
+  end.
+Proof. exact pop_r64_exact. Qed.
+
+(* CALL / RET: the return-address push and pop and the call-stack / trace bookkeeping are proved
+   in C18 (CfP.call_tail, CfP.ret_tail); the 16-bit and immediate PUSH forms are decided by the
+   differential run and the golden known-finding witnesses only. *)
+
 Print Assumptions cond_matches_sdm.
+Print Assumptions C04_push_is_hardware_conjugated.
+Print Assumptions C04_pop_is_hardware_conjugated.
+Print Assumptions C04_push_r64.
+Print Assumptions C04_pop_r64.
